@@ -155,15 +155,6 @@ func (pg *Page) RenderTemplate(ctx context.Context, sym string, values map[strin
 		return "", err
 	}
 	tpl += pg.extra
-	if pg.err != nil {
-		derr := pg.Error()
-		logg.DebugCtxf(ctx, "prepending error", "err", pg.err, "display", derr)
-		if len(tpl) == 0 {
-			tpl = derr
-		} else {
-			tpl = fmt.Sprintf("%s\n%s", derr, tpl)
-		}
-	}
 	if pg.sizer != nil {
 		values, err = pg.sizer.GetAt(values, idx)
 		if err != nil {
@@ -183,6 +174,15 @@ func (pg *Page) RenderTemplate(ctx context.Context, sym string, values map[strin
 	err = tp.Execute(b, values)
 	if err != nil {
 		return "", err
+	}
+	// the error text may carry client input: it is prepended to the rendered page, never to the template source
+	if pg.err != nil {
+		derr := pg.Error()
+		logg.DebugCtxf(ctx, "prepending error", "err", pg.err, "display", derr)
+		if len(tpl) == 0 {
+			return derr, nil
+		}
+		return fmt.Sprintf("%s\n%s", derr, b.String()), nil
 	}
 	return b.String(), err
 }
